@@ -32,7 +32,7 @@ def stratum(line):
 
 def main(tier):
     return passes.run_property(
-        PROP, tier, CONFIGS, lambda p, rng: [('unit_timing', [])], owned, nontrivial,
+        PROP, tier, CONFIGS, lambda p, rng: [('unit_timing', []), ('unit_timing_again', [])], owned, nontrivial,
         'complete programs of the AstEnum machine with alternating sequential / parallel nesting to depth 4, unequal '
         'branch lengths, empty blocks, subcircuit blocks and loops (also inside parallel blocks: must be rejected); '
         'non-trivial = distinct programs with a parallel block and at least one more block',
